@@ -1,5 +1,9 @@
 """C17: plan entry, claim text (MANIFEST) and seeded generators."""
 PLAN_ENTRY = {'stages': [
+        # growth beyond the listed properties (never a verdict): stats::{mean, variance, st_dev, median}, utility::{unflatten, flatten}
+        {'name': 'stats_utility', 'extra': True,
+         'mc': [{'module': 'MC_Stats', 'cfg': {'quick': 'MC_Stats.cfg', 'thorough': 'MC_Stats.cfg'}, 'workers': 2}],
+         'gens': [], 'trace': 'Trace_Stats'},
         {'name': 'fans', 'stateful': True,
          'mc': [
              # domain constructors + every single derived operation on every small root ("fans"); laws of the L1 operators
